@@ -838,6 +838,173 @@ def position_family(r, stats):
                             yield tree
 
 
+
+# =====================================================================================================
+# identifier shapes: the same small expressions with variable / parameter / field / function / struct-variable names of
+# every shape, placed directly before `<` `>` `{` `(` `.` and as the last token of if / while / match conditions and
+# for ranges, in both spellings.  One role carries the shaped name at a time; the other names are plain lower case.
+# =====================================================================================================
+KEYWORDISH = ["iff", "lets", "matcher", "fnx", "returnx", "whilex", "forx", "notx", "andx", "orr", "truex", "falsey", "elsee", "inn", "setx",
+              "mutx", "condx", "assertx", "shadowx", "structx", "unionx", "enumx", "externx", "pubx", "importx", "unsafex", "breakx",
+              "continuex", "rangex", "intx", "boolx", "stringx", "arrayx"]
+TYPE_CASE_VARIANTS = ["p", "o", "color", "u1", "cu"]          # types P, O, Color, U1 exist in every program
+
+
+def shaped_names():
+    """[(shape label, builder(base, uid) -> identifier, usable for top-level names?)]"""
+    out = [("lowercase", lambda b, u: b + u, True),
+           ("Capitalised", lambda b, u: b.capitalize() + u, True),
+           ("ALLCAPS", lambda b, u: b.upper() + u, True),
+           ("_lead", lambda b, u: "_" + b + u, True),
+           ("__lead", lambda b, u: "__" + b + u, True),
+           ("trail_", lambda b, u: b + u + "_", True),
+           ("x1", lambda b, u: b[0] + u, True),
+           ("_1", lambda b, u: "_" + u, True),
+           ("_", lambda b, u: "_", False),
+           ("single-letter", lambda b, u: b[0], False),
+           ("mid_under", lambda b, u: b[0] + "_" + b[1:] + u, True),
+           ("long200", lambda b, u: b + "o" * 200 + u, True)]
+    for kw in KEYWORDISH:
+        out.append(("keywordish:" + kw, (lambda k: (lambda b, u: k))(kw), False))
+        out.append(("keywordish+uid:" + kw, (lambda k: (lambda b, u: k + u))(kw), True))
+    for tn in TYPE_CASE_VARIANTS:
+        out.append(("type-name-other-case:" + tn, (lambda k: (lambda b, u: k))(tn), False))
+    return out
+
+
+class NameItem:
+    """one case of the identifier-shape family (interface of Tree as far as program()/compare() need it)"""
+
+    def __init__(self, shape, role, case, position, ret, decls, body_prefix, body_infix, value, show):
+        self.shape, self.role, self.case, self.position = shape, role, case, position
+        self.ret, self.decls, self.bp, self.bi, self.value = ret, decls, body_prefix, body_infix, value
+        self.infix, self.prefix = show
+        self.classes = frozenset()
+
+    def function(self, name, spelling):
+        body = self.bp if spelling == "prefix" else self.bi
+        decls = self.decls_by[spelling] if getattr(self, "decls_by", None) else self.decls
+        out = [l.replace("@W", name) for l in decls]
+        out.append("fn %s() -> %s {" % (name, self.ret))
+        out += ["    " + l.replace("@W", name) for l in body]
+        out.append("}")
+        return "\n".join(out)
+
+    def key(self):
+        return (("name", self.shape, self.role), self.case, (self.position,))
+
+    def cause(self):
+        """where the shaped name stands in the infix spelling"""
+        for nm in self.names:
+            if re.search(r"(^|[ (\-])%s <" % re.escape(nm), self.infix):
+                return "name-before-<"
+        for nm in self.names:
+            if self.ctx in ("if", "while", "for", "match", "param") and re.search(r"(^|[ (.\-])%s$" % re.escape(nm), self.infix):
+                return "name-before-block"
+        return "other:" + self.position
+
+
+def name_cases(N):
+    """N: role -> identifier (A B int variables, C bool variable, S struct variable, F field, FN function, PRM parameter,
+    U union variable).  -> [(case, position, roles used, ret, decls, common lines, ctx, prefix expr, infix expr, value)]"""
+    A_, B_, C_, S_, F_, FN_, PRM_, U_ = (N[k] for k in ("A", "B", "C", "S", "F", "FN", "PRM", "U"))
+    ab = ["let %s: int = 7" % A_, "let %s: int = 3" % B_]
+    st = ["let %s: SN_@W = SN_@W { %s: 5 }" % (S_, F_)]
+    sdecl = ["struct SN_@W { %s: int }" % F_]
+    fdecl = ["fn %s_@W(m: int, n: int) -> int {" % FN_, "    return (+ (* m 3) n)", "}"]
+    fn = "%s_@W" % FN_
+    pdecl = ["fn hp_@W(%s: int, z: int) -> bool {" % PRM_, "    if @COND {", "        return true", "    } else {", "        return false", "    }", "}"]
+    out = []
+
+    def add(case, position, roles, ret, decls, pre, ctx, pre_e, inf_e, value):
+        out.append((case, position, roles, ret, decls, pre, ctx, pre_e, inf_e, value))
+    for op, f in (("<", lambda x, y: x < y), (">", lambda x, y: x > y), ("<=", lambda x, y: x <= y), (">=", lambda x, y: x >= y),
+                  ("==", lambda x, y: x == y), ("!=", lambda x, y: x != y)):
+        for ctx in ("let", "if", "letp"):
+            add("A %s B/%s" % (op, ctx), "before-%s" % op, "AB", "bool", [], ab, ctx, "(%s %s %s)" % (op, A_, B_), "%s %s %s" % (A_, op, B_), f(7, 3))
+            add("B %s A/%s" % (op, ctx), {"let": "last-of-let", "if": "last-of-if-condition", "letp": "before-("}[ctx], "AB", "bool", [], ab, ctx,
+                "(%s %s %s)" % (op, B_, A_), "%s %s %s" % (B_, op, A_), f(3, 7))
+    add("B + A < B", "non-leftmost-before-<", "AB", "bool", [], ab, "let", "(< (+ %s %s) %s)" % (B_, A_, B_), "%s + %s < %s" % (B_, A_, B_), False)
+    add("B + A > B/if", "non-leftmost-before->", "AB", "bool", [], ab, "if", "(> (+ %s %s) %s)" % (B_, A_, B_), "%s + %s > %s" % (B_, A_, B_), True)
+    add("-A + B", "after-unary-minus", "AB", "int", [], ab, "let", "(+ (- %s) %s)" % (A_, B_), "-%s + %s" % (A_, B_), -4)
+    add("not C and C", "after-not", "C", "bool", [], ["let %s: bool = true" % C_], "if", "(and (not %s) %s)" % (C_, C_), "not %s and %s" % (C_, C_), False)
+    add("C or not C", "last-of-if-condition", "C", "bool", [], ["let %s: bool = true" % C_], "if", "(or %s (not %s))" % (C_, C_), "%s or not %s" % (C_, C_), True)
+    add("while wi != A", "last-of-while-condition", "A", "int", [], ["let %s: int = 7" % A_], "while", "(!= wi %s)" % A_, "wi != %s" % A_, 7)
+    add("while wi < A", "last-of-while-condition", "A", "int", [], ["let %s: int = 7" % A_], "while", "(< wi %s)" % A_, "wi < %s" % A_, 7)
+    add("while A > wi", "before->", "A", "int", [], ["let %s: int = 7" % A_], "while", "(> %s wi)" % A_, "%s > wi" % A_, 7)
+    add("for range 0 A", "last-of-for-range", "A", "int", [], ["let %s: int = 7" % A_], "for", "(range 0 %s)" % A_, "(range 0 %s)" % A_, 21)
+    add("for range 0 B + A", "last-of-for-range", "AB", "int", [], ab, "for", "(range 0 (+ %s %s))" % (B_, A_), "(range 0 %s + %s)" % (B_, A_), 45)
+    add("match U", "last-of-match-scrutinee", "U", "int", [], ["let %s: U1 = U1.V0 { a0: 4 }" % U_], "match", U_, U_, 4)
+    add("S.F + 1", "before-.", "SF", "int", sdecl, st, "let", "(+ %s.%s 1)" % (S_, F_), "%s.%s + 1" % (S_, F_), 6)
+    add("1 + S.F", "before-.-non-leftmost", "SF", "int", sdecl, st, "letp", "(+ 1 %s.%s)" % (S_, F_), "1 + %s.%s" % (S_, F_), 6)
+    add("S.F < 9/if", "field-before-<", "SF", "bool", sdecl, st, "if", "(< %s.%s 9)" % (S_, F_), "%s.%s < 9" % (S_, F_), True)
+    add("9 > S.F/if", "field-last-of-if-condition", "SF", "bool", sdecl, st, "if", "(> 9 %s.%s)" % (S_, F_), "9 > %s.%s" % (S_, F_), True)
+    add("-S.F", "after-unary-minus", "SF", "int", sdecl, st, "let", "(- %s.%s)" % (S_, F_), "-%s.%s" % (S_, F_), -5)
+    add("(FN A B)", "function-name-before-arguments", "FNAB", "int", fdecl, ab, "let", "(%s %s %s)" % (fn, A_, B_), "(%s %s %s)" % (fn, A_, B_), 24)
+    add("(FN A + 1 B) < 30", "call-before-<", "FNAB", "bool", fdecl, ab, "if", "(< (%s (+ %s 1) %s) 30)" % (fn, A_, B_), "(%s %s + 1 %s) < 30" % (fn, A_, B_), True)
+    add("1 + (FN B A)", "call-non-leftmost", "FNAB", "int", fdecl, ab, "letp", "(+ 1 (%s %s %s))" % (fn, B_, A_), "1 + (%s %s %s)" % (fn, B_, A_), 17)
+    for op, val in (("<", True), (">", False)):
+        add("param PRM %s z" % op, "parameter-before-%s" % op, "PRM", "bool", None, [], "param", "(%s %s z)" % (op, PRM_), "%s %s z" % (PRM_, op), val)
+        add("param z %s PRM" % op, "parameter-last-of-if-condition", "PRM", "bool", None, [], "param", "(%s z %s)" % (op, PRM_), "z %s %s" % (op, PRM_), not val)
+    return out, pdecl
+
+
+def name_items():
+    roles = {"var": ["A", "B", "C"], "struct-var": ["S"], "field": ["F"], "function": ["FN"], "parameter": ["PRM"], "union-var": ["U"]}
+    plain = {"A": "lo", "B": "hi", "C": "ok", "S": "st", "F": "fx", "FN": "calc", "PRM": "pa", "U": "un"}
+    items = []
+    uid = [0]
+    for shape, build, top_ok in shaped_names():
+        for role, logical in roles.items():
+            if role in ("function", "field") and not top_ok and not shape.startswith("keywordish:"):
+                continue
+            uid[0] += 1
+            N = dict(plain)
+            for i, l in enumerate(logical):
+                nm = build(plain[l], "%d" % (uid[0] * 3 + i))
+                if not top_ok and i > 0:
+                    continue          # a fixed name can be given to one identifier of the function only
+                N[l] = nm
+            if len(set(N.values())) < len(N):
+                continue
+            cases, pdecl = name_cases(N)
+            for case, position, used, ret, decls, pre, ctx, pre_e, inf_e, value in cases:
+                if not any(l in used for l in ("".join(logical).replace("PRM", "PRM"),) ) and not any(l in used for l in logical):
+                    continue
+                if role == "var" and not top_ok and N["A"] == plain["A"]:
+                    continue
+                bodies = []
+                for e in (pre_e, inf_e):
+                    if ctx == "let":
+                        b = pre + ["let r: %s = %s" % (ret, e), "return r"]
+                    elif ctx == "letp":
+                        b = pre + ["let r: %s = %s" % (ret, e), '(print "")', "return r"]
+                    elif ctx == "if":
+                        b = pre + ["if %s {" % e, "    return true", "} else {", "    return false", "}"]
+                    elif ctx == "while":
+                        b = pre + ["let mut wi: int = 0", "while %s {" % e, "    set wi (+ wi 1)", "}", "return wi"]
+                    elif ctx == "for":
+                        b = pre + ["let mut acc: int = 0", "for i in %s {" % e, "    set acc (+ acc i)", "}", "return acc"]
+                    elif ctx == "match":
+                        b = pre + ["match %s {" % e, "    V0(m) => { return m.a0 },", "    V1(m) => { return 0 }", "}"]
+                    elif ctx == "param":
+                        b = ["return (hp_@W 3 7)"]
+                    bodies.append(b)
+                if ctx == "param":
+                    # the condition lives in the helper; one helper per spelling is needed, so the helper is part of the body text
+                    d_pre = [l.replace("@COND", pre_e) for l in pdecl]
+                    d_inf = [l.replace("@COND", inf_e) for l in pdecl]
+                    it = NameItem(shape, role, case, position, ret, [], bodies[0], bodies[1], value, (inf_e, pre_e))
+                    it.decls_by = {"prefix": d_pre, "infix": d_inf}
+                else:
+                    it = NameItem(shape, role, case, position, ret, decls, bodies[0], bodies[1], value, (inf_e, pre_e))
+                    it.decls_by = None
+                it.names = [N[l] for l in logical]
+                it.ctx = ctx
+                items.append(it)
+    return items
+
+
 # =====================================================================================================
 # .nvm sections
 # =====================================================================================================
@@ -1368,6 +1535,57 @@ def run(ctx):
                 flush()
         flush()
 
+        # ---- identifier shapes -----------------------------------------------------------------------------------
+        nitems = name_items()
+        nstats = {"items": len(nitems), "shapes": len(set(i.shape for i in nitems)), "roles": sorted(set(i.role for i in nitems)),
+                  "positions": sorted(set(i.position for i in nitems)), "outcomes": {}, "shape_not_usable": {}}
+        nb = [nitems[i:i + BATCH] for i in range(0, len(nitems), BATCH)]
+
+        def do_names(job):
+            bi, lst = job
+            d = sc.sub("nm%05d" % bi)
+            o = compare(plain, d, lst)
+            if o.cls == "watchdog":
+                o = compare(plain, d, lst)
+            out = []
+            if o.cls == "agree" or len(lst) == 1:
+                out = [(t, o) for t in lst]
+            else:
+                for k, t in enumerate(lst):
+                    o1 = compare(plain, sc.sub("nm%05d-%d" % (bi, k)), [t])
+                    out.append((t, o1))
+            import shutil
+            shutil.rmtree(d, ignore_errors=True)
+            return out
+
+        control_ok = set()
+        name_results = [x for res in pmap(do_names, list(enumerate(nb))) for x in res]
+        for t, o in name_results:
+            if t.shape == "lowercase" and o.cls == "agree":
+                control_ok.add(t.case)
+        for t, o in name_results:
+            S["ntrees"] += 1
+            lab = "names:" + o.cls
+            nstats["outcomes"][lab] = nstats["outcomes"].get(lab, 0) + 1
+            hist[lab] = hist.get(lab, 0) + 1
+            if o.cls == "agree":
+                S["shapes"].add(t.key())
+                continue
+            if o.cls == "watchdog":
+                S["watchdog"] += 1
+                continue
+            if t.shape == "lowercase":
+                raise Inconclusive("identifier-shape family: the plain lower-case control of case '%s' does not agree (%s): %s" % (t.case, o.cls, o.detail))
+            if t.infix == t.prefix and o.cls == "prefix-rejected":
+                # the two spellings are the same text (match scrutinee, plain range): not a difference of notation
+                nstats["shape_not_usable"]["%s|%s|%s" % (t.shape, t.role, t.case)] = first_diag(o.detail)
+                continue
+            files = dict(o.files)
+            ctx.violation("identifier-shape|%s|%s|%s" % (t.shape.split(":")[0] if t.shape.startswith("keywordish+uid") else t.shape, t.role, t.cause()),
+                          "identifier shape %s as %s, case `%s` (%s): infix `%s` and prefix `%s` do not denote the same program: %s" % (
+                              t.shape, t.role, t.case, t.position, t.infix[:200], t.prefix[:200], o.detail), files)
+        ctx.require(len(control_ok) >= 40, "identifier-shape family: too few lower-case control cases agreed (%d)" % len(control_ok))
+
         ntrees = S["ntrees"]
         ctx.require(S["watchdog"] <= max(2 * BATCH, ntrees // 50), "too many compilations hit the watchdog")
         agree = hist.get("agree", 0) + hist.get("agree(deep)", 0)
@@ -1394,6 +1612,7 @@ def run(ctx):
             "positions_unary_and_call_argument": dict(enum_stats["positions"], exhaustive=True,
                                                       rule="every operator x typing x side x {operand of unary, call argument} x operand kind"),
             "operand_kinds": AVAIL,
+            "identifier_shapes": nstats,
             "nesting_limit_measured": limit,
             "deep_depths": depths,
             "deep_kinds": DEEP_KINDS,
@@ -1425,6 +1644,12 @@ def write_witnesses():
     for sp in ("infix", "prefix"):
         with open(os.path.join(FIND, "enum_variant_before_block_%s.nano" % sp), "w") as f:
             f.write(program([t], sp))
+    for it in name_items():
+        if it.shape == "Capitalised" and it.role == "var" and it.case in ("A < B/let", "while wi != A"):
+            tag = "uppercase_name_before_lt" if it.case == "A < B/let" else "uppercase_name_before_block"
+            for sp in ("infix", "prefix"):
+                with open(os.path.join(FIND, "%s_%s.nano" % (tag, sp)), "w") as f:
+                    f.write(program([it], sp))
     for name, tree in cases:
         t = Tree(tree, "let")
         with open(os.path.join(FIND, name + "_infix.nano"), "w") as f:
